@@ -3,6 +3,9 @@ mod common;
 mod tl;
 mod gen;
 mod c02;
+mod c06;
+mod c07;
+mod c13;
 mod drive;
 mod m2;
 mod c12;
@@ -25,7 +28,10 @@ fn main() {
             let tier = args.get(3).cloned().unwrap_or_else(|| "quick".into());
             let rep = match id.as_str() {
                 "C02" | "C05" => c02::run(&id, &tier),
+                "C06" => c06::run(&tier),
+                "C07" => c07::run(&tier),
                 "C12" => c12::run(&tier),
+                "C13" => c13::run(&tier),
                 "C15" => c15::run(&tier),
                 "C17" => c17::run(&tier),
                 _ => { eprintln!("unknown property {id}"); std::process::exit(2) }
@@ -39,7 +45,10 @@ fn main() {
             let detail = &doc["detail"];
             let code = match id.as_str() {
                 "C02" | "C05" => c02::replay(detail, &id),
+                "C06" => c06::replay(detail),
+                "C07" => c07::replay(detail),
                 "C12" => c12::replay(detail),
+                "C13" => c13::replay(detail),
                 "C15" => c15::replay(detail),
                 "C17" => c17::replay(detail),
                 _ => 2,
